@@ -441,6 +441,8 @@ def cas1(ctx, c):
                         "%s [%s]: length byte is %s, %d payload bytes follow" % (name, cd, lenb[1], n), where)
                 if lenb[2] is not None:
                     c.check(lenb[2] <= T.MAX_DATA, site + ":maxlen", "<=255", "len %d > 255" % lenb[2], "%s: block longer than 255 bytes" % name, where)
+            elif any(str(s_[0]).startswith("?") for s_ in sym):
+                c.undecided(site + ":length", "payload-loop-count-not-modelled", "%s" % [s_[0] for s_ in sym], where)
             else:
                 good = n == 0 and len(sym) == 1 and sym[0][1] == 1 and sym[0][0] == lenb[1]
                 c.check(good, site + ":length", "len byte = loop count (%s)" % lenb[1], "len byte %s but payload is %s" % (lenb[1], ["%s x %d" % s for s in sym] + ([n] if n else [])),
@@ -494,6 +496,9 @@ def _namefile_payload(c, name, site, payload, where):
     if not flat or flat[0][0] != "rep":
         # name written as 8 single bytes?
         c.undecided(site + ":name", "name-field-shape-unknown", "", where)
+        return
+    if not isinstance(flat[0][1], int):
+        c.undecided(site + ":name", "name-loop-count-not-modelled", "%s" % (flat[0][1],), where)
         return
     c.check(flat[0][1] == 8, site + ":name", "8 name bytes", "name loop writes %s bytes" % flat[0][1], "%s: the file name field is not 8 bytes" % name, where)
     rep = flat[0][2]
